@@ -327,7 +327,9 @@ def write_evidence(mod, camp, violations, known_seen, wall):
         "seed": int(camp.seed),
         "level": mod.LEVEL,
         "coverage": cov,
-        "assumptions": list(getattr(mod, "ASSUMPTIONS", [])),
+        "assumptions": list(getattr(mod, "ASSUMPTIONS", [])) + [
+            "the check process runs without the super-user's permission override (CAP_DAC_OVERRIDE / CAP_DAC_READ_SEARCH dropped, "
+            "vlib/unpriv.py): permission bits set by a case were %s" % ("enforced" if __import__("vlib.unpriv", fromlist=["x"]).ENFORCED else "NOT enforced")],
         "wall_s": round(wall, 2),
         "violations": violations,
     }
